@@ -273,6 +273,7 @@ type c09World struct {
 	finalizer *Task
 	finals    []*c09Op
 	finalCtx  context.Context
+	siege     bool
 }
 
 func (w *c09World) taskFn(idx int) func(*Task) {
@@ -297,6 +298,9 @@ func (w *c09World) taskFn(idx int) func(*Task) {
 				w.s.Rec("ret", op.ID, canonErrQuiet(err), 1)
 			} else {
 				w.s.Rec("ret", op.ID, canonValQuiet(res), 0)
+			}
+			if w.siege && idx == 1 {
+				w.s.SiegeOpDone(t)
 			}
 		}
 	}
@@ -348,8 +352,22 @@ func canonErrQuiet(err error) string {
 func (c09) Run(tp *Tape, opt RunOpt) *RunOut {
 	out := &RunOut{prop: "C09", Stats: map[string]int64{}}
 	// ---- generate ----
+	// siege (1 run in 120): one swap! against a thread that installs a new value inside every one of its
+	// read-apply-install windows, hundreds to thousands of times in a row; the swap! must still apply its
+	// function to the latest value and return it once the other thread is done (no update lost, no error,
+	// however many rounds it lost)
+	siege := tp.Chance(LaneWork, 1, 120)
+	siegeN := 0
+	siegePoint := ""
+	if siege {
+		siegeN = []int{40, 150, 600, 1050, 1300, 2100}[tp.Draw(LaneWork, 6)]
+		siegePoint = []string{"atom.swap.read", "atom.swap.applied"}[tp.Draw(LaneWork, 2)]
+	}
 	nAtoms := 1 + tp.Draw(LaneWork, 3)
 	nThreads := 2 + tp.Draw(LaneWork, 4)
+	if siege {
+		nAtoms, nThreads = 1, 2
+	}
 	cfg := SimCfg{
 		Q:          []int{1, 2, 3, 4, 6, 8, 16}[tp.Draw(LaneWork, 7)],
 		WindowBias: []int{0, 2, 3, 5, 10}[tp.Draw(LaneWork, 5)],
@@ -357,12 +375,15 @@ func (c09) Run(tp *Tape, opt RunOpt) *RunOut {
 		FullLog:    opt.Full,
 		Horizon:    time.Hour,
 	}
-	if tp.Chance(LaneWork, 1, 5) {
+	if siege {
+		cfg.Q, cfg.WindowBias = 1, 0
+		cfg.MaxDecisions = 4*siegeN + 1000
+	} else if tp.Chance(LaneWork, 1, 5) {
 		cfg.StarveID = tp.Draw(LaneWork, nThreads+2)
 		cfg.StarveFrom = tp.Draw(LaneWork, 20)
 		cfg.StarveLen = 5 + tp.Draw(LaneWork, 60)
 	}
-	if tp.Chance(LaneWork, 1, 4) {
+	if !siege && tp.Chance(LaneWork, 1, 4) {
 		// PCT policy instead of the random walk: priorities with 0-2 change points
 		cfg.PCTDepth = 1 + tp.Draw(LaneWork, 3)
 		cfg.PCTSpan = []int{30, 120, 600}[tp.Draw(LaneWork, 3)]
@@ -389,9 +410,20 @@ func (c09) Run(tp *Tape, opt RunOpt) *RunOut {
 		s.AddCancel(cancel)
 		th := &c09Thread{ctx: ctx}
 		n := 1 + tp.Draw(LaneWork, 6)
+		if siege {
+			n = []int{1 + tp.Draw(LaneWork, 2), siegeN}[ti]
+		}
 		for k := 0; k < n; k++ {
 			op := &c09Op{ID: "o" + strconv.Itoa(ti) + "." + strconv.Itoa(k)}
 			op.Kind = c09Kinds[tp.Weighted(LaneWork, c09Weights)]
+			if siege {
+				// the victim (thread 0) swaps, the adversary (thread 1) installs values of its own
+				if ti == 0 {
+					op.Kind = []string{"swap-cons", "swap-wide", "swap-conj", "swap-extra-args", "swap-derefs-self", "swap-in-let"}[tp.Draw(LaneWork, 6)]
+				} else {
+					op.Kind = "reset"
+				}
+			}
 			op.Atom = tp.Draw(LaneWork, nAtoms)
 			op.Other = op.Atom
 			if nAtoms > 1 {
@@ -406,7 +438,10 @@ func (c09) Run(tp *Tape, opt RunOpt) *RunOut {
 			op.Spin = 3 + tp.Draw(LaneWork, 40)
 			op.Limit = tp.Draw(LaneWork, 5)
 			op.Future = tp.Chance(LaneWork, 1, 6)
-			if !op.Future && tp.Chance(LaneFault, 1, 8) {
+			if siege {
+				op.Future = false
+			}
+			if !siege && !op.Future && tp.Chance(LaneFault, 1, 8) {
 				switch op.Kind {
 				case "swap-cons", "swap-conj", "swap-wide", "swap-conj-wide", "reset", "deref", "vswap-assoc", "vswap-assoc-wide", "swap-in-let", "swap-extra-args":
 					// the fault: this operation's context is cancelled somewhere inside it
@@ -416,7 +451,11 @@ func (c09) Run(tp *Tape, opt RunOpt) *RunOut {
 			op.build()
 			ops[op.ID] = op
 			th.ops = append(th.ops, op)
-			if op.Fuse > 0 {
+			if siege && ti == 1 && k >= 3 {
+				if k == 3 {
+					rendering = append(rendering, "thread 1: ... "+strconv.Itoa(siegeN)+" such operations, one inside every "+siegePoint+" window of thread 0")
+				}
+			} else if op.Fuse > 0 {
 				rendering = append(rendering, "thread "+strconv.Itoa(ti)+": "+op.Src+"   ; context cancelled at hook point "+strconv.Itoa(op.Fuse))
 			} else {
 				rendering = append(rendering, "thread "+strconv.Itoa(ti)+": "+op.Src)
@@ -426,8 +465,14 @@ func (c09) Run(tp *Tape, opt RunOpt) *RunOut {
 	}
 	// ---- run ----
 	simhook.Install(s)
+	w.siege = siege
+	var thTasks []*Task
 	for ti := range w.threads {
-		s.Go("thread"+strconv.Itoa(ti), w.taskFn(ti))
+		thTasks = append(thTasks, s.Go("thread"+strconv.Itoa(ti), w.taskFn(ti)))
+	}
+	if siege {
+		s.SetSiege(thTasks[0], thTasks[1], siegePoint)
+		out.Stats["programs:siege"]++
 	}
 	for ai := 0; ai < nAtoms; ai++ {
 		op := &c09Op{ID: "final." + strconv.Itoa(ai), Kind: "deref", Atom: ai, Src: "@" + atomName(ai)}
@@ -446,6 +491,12 @@ func (c09) Run(tp *Tape, opt RunOpt) *RunOut {
 	s.Run()
 	simhook.Install(nil)
 	out.collect(s)
+	if siege {
+		out.Stats["siege:rounds-lost-by-one-swap"] += s.SiegeRounds
+		if s.SiegeRounds >= 1000 {
+			out.Stats["reach:swap-lost-1000-rounds-in-a-row"]++
+		}
+	}
 
 	// ---- oracles ----
 	type opRec struct {
@@ -724,7 +775,7 @@ func (c09) Run(tp *Tape, opt RunOpt) *RunOut {
 					}
 					pops = append(pops, porcupine.Operation{ClientId: i, Input: in, Call: int64(r.call), Output: r.out, Return: int64(r.ret)})
 				}
-				if len(pops) > 60 {
+				if len(pops) > 60 && !siege {
 					tooLong = true
 					break
 				}
